@@ -346,7 +346,24 @@ pub fn no_bigram_feature(ts: &TrainSet) -> bool {
 
 pub const KNOWN_NO_BIGRAM: &str = "C14:write_dictionary:panic:rucrf-merge-on-empty-bigram-table:no-left-word-feature";
 
+/// Trains in a helper thread with a generous wall-clock limit: rucrf's optimiser (argmin L-BFGS with
+/// a More-Thuente line search) was observed not to terminate on a few generated configurations
+/// (C16 thorough, seed 1, shard 4, case 581). Training that does not finish is not a trained
+/// model, so no property speaks about it; the case is counted and skipped, the runaway thread is
+/// abandoned (it ends with the shard process).
 pub fn train(ts: &TrainSet) -> Result<Model, String> {
+    let (tx, rx) = std::sync::mpsc::channel();
+    let ts2 = ts.clone();
+    std::thread::spawn(move || {
+        let _ = tx.send(train_blocking(&ts2));
+    });
+    match rx.recv_timeout(std::time::Duration::from_secs(60)) {
+        Ok(r) => r,
+        Err(_) => Err("timeout: training did not finish within 60 s".to_string()),
+    }
+}
+
+pub fn train_blocking(ts: &TrainSet) -> Result<Model, String> {
     let r = guarded(|| -> Result<Model, String> {
         let config = TrainerConfig::from_readers(ts.seed_csv().as_bytes(), ts.char_def().as_bytes(), ts.unk_def().as_bytes(), ts.feature_def().as_bytes(), ts.rewrite_def().as_bytes()).map_err(|e| format!("config: {e}"))?;
         let corpus = Corpus::from_reader(ts.corpus_txt().as_bytes()).map_err(|e| format!("corpus: {e}"))?;
@@ -463,7 +480,10 @@ pub fn c14_case(ctx: &mut Ctx, rng: &mut Rng) {
         match train(&ts) {
             Ok(m) => (m, ts.texts()),
             Err(e) => {
-                if e.starts_with("panic") {
+                if e.starts_with("timeout") {
+                    ctx.bucket("training_did_not_terminate_skipped");
+                    ctx.note(format!("training did not terminate: index {}", ctx.index));
+                } else if e.starts_with("panic") {
                     ctx.bucket("training_panicked");
                     ctx.note(format!("training panicked: {e}"));
                 } else {
